@@ -320,6 +320,17 @@ def _identity(value: T) -> T:
     return value
 
 
+def _untyped_literal(
+    node: _ScalarValueNode, _variables: Mapping[str, Any]
+) -> Any:
+    # Same Python value as the one the equivalent JSON variable would have.
+    if isinstance(node, _ast.IntValue):
+        return int(node.value, 10)
+    if isinstance(node, _ast.FloatValue):
+        return float(node.value)
+    return node.value
+
+
 def default_scalar(
     name: str,
     description: Optional[str] = None,
@@ -338,7 +349,7 @@ def default_scalar(
         name,
         serialize=_identity,
         parse=_identity,
-        parse_literal=lambda node, _: node.value,
+        parse_literal=_untyped_literal,
         description=description,
         nodes=nodes,
     )
